@@ -756,6 +756,23 @@ def c13_streams(rng, tier, budget):
         st.obs_all(y, ["val"])
         st.cmp(x, y)
         st.add("tag\tassoc\t%d\t%d" % (x, y))
+    # several segments at once with REPEATED texts (trailing slash / empty ones keep or lose their last empty segment by POSITION)
+    for bs in ["http://h/api", "http://h", "http://h/", "http://h/a//b", "/r", "r/s", "", "x:a"]:
+        h = st.new(bs)
+        for encd in ("F", "T"):
+            for seq in (["v1/", "v1/"], ["v1/", "users", "v1/"], ["x", "", ""], ["", "x", ""], ["a", "a"], ["a/", "b", "a/"], ["", ""], ["a/b/", "c", "a/b/"],
+                        ["a%20b/", "a%20b/"], ["é/", "é/"]):
+                m = st.mod(h, "joinpath", encd, *[enc(t) for t in seq])
+                st.obs_all(m, C13_OBS)
+                pm = st.mod(m, "parent")
+                st.obs_all(pm, ["val", "raw_name"])
+                if encd == "F":          # "joinpath(a, b) and joinpath(a).joinpath(b) are equal", for any number of arguments
+                    y = h
+                    for t in seq:
+                        y = st.mod(y, "joinpath", "F", enc(t))
+                    st.obs_all(y, ["val"])
+                    st.cmp(m, y)
+                    st.add("tag\tassoc\t%d\t%d" % (m, y))
     yield "path-ops", st
     # "with_name(n) has … the same parent" and "u / s has parent parts equal to u's parts without a trailing empty segment",
     # as URL-level equalities, over every base shape (authority or not; empty, root, one and two segments; trailing slash)
@@ -793,8 +810,10 @@ def c13_oracle_full(full, io, b):
                 xa = full[v.cr[x]].split("\t")
                 sa = dec(xa[5]) if len(xa) > 5 else ""
                 sc = dec(xa[6]) if len(xa) > 6 else ""
+                if len(xa) > 7:
+                    sc = sc + "', '" + "', '".join(dec(t) for t in xa[7:])
                 # the algebraic law is stated for non-empty segments that are not dot segments
-                plain = all(t and "." not in t for t in (sa, sc))
+                plain = all(dec(t) and "." not in dec(t) for t in xa[5:])
                 if a and c and a != c and plain:
                     out.append({"what": f"joinpath({sa!r}, {sc!r}) = {pretty_out(a)} but joinpath({sa!r}).joinpath({sc!r}) = {pretty_out(c)}", "class": "joinpath-assoc",
                                 "n": v.n_of(x, "val"), "also": [v.n_of(y, "val")], "input": describe_handle(full, x)})
